@@ -36,6 +36,8 @@ type Env struct {
 	// base execution (all of which replay the same plan draws).  The worker
 	// resets it for every base.
 	Memo map[string]any
+	// Ref, if set, computes reference answers in another process (C13).
+	Ref func(lists []disk.ListPlan, ops []workload.Op) ([]RefAnswer, string)
 }
 
 // Violation is a property violation found by a run.
